@@ -7,7 +7,8 @@ EXTENDS Expand
 CONSTANTS Sel,        \* alphabets explored in this run
           N,          \* longest input (symbols) from the empty store
           N1, N2,     \* longest %put/%get input from a store with one / with two or more entries
-          NCall       \* longest input over the 9-symbol "call" alphabet
+          NCall,      \* longest input over the 9-symbol "call" alphabet
+          NMix        \* longest input over the merged 10-symbol "mix" alphabet
 
 (* environments: 1: HOME=/h A=w$   2: HOME unset, A=v   3: HOME and A set but empty.  B is never set. *)
 EnvMC(e, nm) == IF nm = NmHome THEN (IF e = 1 THEN <<47, 104>> ELSE <<>>)
@@ -31,7 +32,8 @@ EnvsOf(a) == CASE a = "til" -> {1, 2, 3} [] a = "dol2" -> {1, 3} [] a = "mix" ->
 LenOf(a, e, st) == IF a = "pg" THEN (IF Len(st) = 0 THEN N ELSE IF Len(st) = 1 THEN N1 ELSE N2)
                    ELSE IF st # <<>> THEN -1
                    ELSE IF a = "call" THEN NCall
-                   ELSE IF a = "dol2" \/ (a = "til" /\ e # 1) \/ (a = "mix" /\ e # 1) THEN N - 1
+                   ELSE IF a = "mix" THEN (IF e = 1 THEN NMix ELSE NMix - 1)
+                   ELSE IF a = "dol2" \/ (a = "til" /\ e # 1) THEN N - 1
                    ELSE N
 
 RECURSIVE Flat(_, _)
